@@ -1,11 +1,11 @@
-\* M+G (thorough, exhaustive, nested depth 2): one member that is a definition of <= 2 members, each a byte, a pointer or a definition of <= 2 bytes / pointers (alone or array of 2), both pointer sizes
+\* M+G (thorough, exhaustive, nested depth 2): one member that is a struct / packed struct of <= 2 members, each a byte, a pointer or a definition of <= 2 bytes / pointers (alone or array of 2), both pointer sizes
 CONSTANTS
   RawT = {"B", "P"}
   ArrN = {}
   NestN = {2}
   Ords = {""}
   DefOrds = {""}
-  DefKinds = {"struct", "packed", "union"}
+  DefKinds = {"struct", "packed"}
   MaxF = 1
   MaxIF = 2
   MinF = 1
